@@ -1,2 +1,125 @@
--- stub driver for C16: replaced when the property's model exists
-def main : IO Unit := pure ()
+import Snel.Model.Proto
+import Snel.Model.Time
+open Snel Snel.Proto Snel.Time
+
+/-- hex of UTF-8 bytes → characters (`-` = empty). -/
+def unhexStr (tok : String) : Option (List Char) := do
+  let bs ← unhex tok
+  let s ← String.fromUTF8? (ByteArray.mk bs.toArray)
+  some s.toList
+
+def parseHex64 (s : String) : Option Nat :=
+  if s.length ≠ 16 then none else
+  s.toList.foldlM (fun acc c => (hexVal c).map fun v => acc * 16 + v) 0
+
+/-- `n | t | f | i<dec> | u<dec> | d<16 hex> | s<hex> | c<hex>` -/
+def parseJV (tok : String) : Option JV :=
+  match tok.toList with
+  | ['n'] => some .null
+  | ['t'] => some (.bool true)
+  | ['f'] => some (.bool false)
+  | 'i' :: r => (String.ofList r).toInt?.map .int
+  | 'u' :: r => (String.ofList r).toNat?.map .uint
+  | 'd' :: r => (parseHex64 (String.ofList r)).map .float
+  | 's' :: r => (unhexStr (String.ofList r)).map .str
+  | 'c' :: r => (unhexStr (String.ofList r)).map .compound
+  | _ => none
+
+def hexOfStr (s : List Char) : String := hexOfBytes (String.ofList s).toUTF8.toList
+
+def hex16 (n : Nat) : String :=
+  String.ofList ((List.range 16).reverse.map fun i => hexDigit (n / 16 ^ i % 16))
+
+def showSV : SV → String
+  | .null => "n"
+  | .bool true => "t"
+  | .bool false => "f"
+  | .int i => s!"i{i}"
+  | .ts i => s!"T{i}"
+  | .float b => "d" ++ hex16 b
+  | .utf8 s => "s" ++ hexOfStr s
+
+def showOpt : Option Int → String
+  | some t => s!"some {t}"
+  | none => "none"
+
+def showCond : Cond → String
+  | .num t => s!"num:{t}"
+  | .str s => "str:" ++ hexOfStr s
+  | .dropped => "dropped"
+
+def showNorm : Except NormErr Int → String
+  | .ok t => s!"ok:{t}"
+  | .error .magnitude => "err:mag"
+  | .error .badString => "err:str"
+  | .error .badType => "err:type"
+
+def parseGran : String → Option Gran
+  | "hour" => some .hour | "day" => some .day | "week" => some .week
+  | "month" => some .month | "year" => some .year | _ => none
+
+def parseOp : String → Option Op
+  | "eq" => some .eq | "neq" => some .neq | "gt" => some .gt | "gte" => some .gte
+  | "lt" => some .lt | "lte" => some .lte | _ => none
+
+def parseZone (tok : String) : Option (List Int) :=
+  if tok == "-" then some [] else (tok.splitOn ",").mapM (·.toInt?)
+
+def answer (line : String) : String :=
+  match words line with
+  | ["parse", h] =>
+    match unhexStr h with
+    | some s => showOpt (parseStr s)
+    | none => "bad-op"
+  | ["json", fld, tok] =>
+    match parseJV tok with
+    | some v =>
+      if fld ∉ ["ts", "date", "opt-ts", "opt-date"] then "bad-op" else
+      let direct := showNorm (normalizeJson v)
+      let viaPayload := if (fld == "opt-ts" || fld == "opt-date") && v == .null then "null" else direct
+      s!"{direct} {viaPayload}"
+    | none => "bad-op"
+  | ["bucket", off, ws, g, ts] =>
+    match off.toInt?, ws.toNat?, parseGran g, ts.toNat? with
+    | some off, some ws, some g, some ts =>
+      match bucketOf off ws g ts with
+      | some b => toString b
+      | none => "panic"
+    | _, _, _, _ => "bad-op"
+  | ["naive", g, ts] =>
+    match parseGran g, ts.toNat? with
+    | some g, some ts => toString (naiveBucketOf g ts)
+    | _, _ => "bad-op"
+  | ["fmt", ts] =>
+    match ts.toNat? with
+    | some ts =>
+      let t := u64AsI64 (ts % 2 ^ 64)
+      let st : Style := { sep := 'T', frac := [], zulu := none, minus := '-', negZero := false }
+      hexOfStr (format t 0 st)
+    | none => "bad-op"
+  | ["sites", tok] =>
+    match parseJV tok with
+    | some v =>
+      let rw := rewriteLiteral v
+      s!"store={showNorm (normalizeJson v)} raw={showSV (SV.ofJson v)} rw={showSV (SV.ofJson rw)} row={showCond (rowCondition v)}"
+    | none => "bad-op"
+  | ["since", h] =>
+    match unhexStr h with
+    | some s => s!"row={showOpt (sinceCondition s)} pr={prunerTs (.utf8 s)}"
+    | none => "bad-op"
+  | ["zone", op, cal, tok, z] =>
+    match parseOp op, parseJV tok, parseZone z with
+    | some op, some v, some zone =>
+      if cal ≠ "cal" ∧ cal ≠ "nocal" then "bad-op" else
+      match prunerDecision op (SV.ofJson v) (cal == "cal") zone with
+      | some true => "kept"
+      | some false => "pruned"
+      | none => "unhandled"
+    | _, _, _ => "bad-op"
+  | ["cmp", op, l, r] =>
+    match parseOp op, l.toInt?, r.toInt? with
+    | some op, some l, some r => toString (op.eval l r)
+    | _, _, _ => "bad-op"
+  | _ => "bad-op"
+
+def main : IO Unit := serve answer
